@@ -451,6 +451,15 @@ pub fn catalogue(prop: &str, thorough: bool) -> Vec<Spec> {
     v.push(Spec { name: "c06/partial-response-then-close".into(), prop: "C06", callers: later(1, 2), server: vec![Read, ReplyPartial(0, 50), Close], helper: vec![], pipe: (0, 0), expect: Expect::AllErr, bound: None, write_timeout_s: None });
     v.push(Spec { name: "c06/malformed-header".into(), prop: "C06", callers: later(1, 2), server: vec![Read, Malformed], helper: vec![], pipe: (0, 0), expect: Expect::AllErr, bound: None, write_timeout_s: None });
     v.push(Spec { name: "c06/answer-one-then-close".into(), prop: "C06", callers: two(1, 2), server: vec![Read, Reply(0), Close], helper: vec![], pipe: (0, 0), expect: Expect::OwnOrErr, bound: None, write_timeout_s: None });
+    // the connection fails (malformed frame from a peer that stays up and never reads again) while a request
+    // larger than the pipe is stalled mid-write, i.e. while the writer lock is held; a second caller is queued
+    // behind it; every call, and the call issued afterwards, must return an error
+    v.push(Spec { name: "c06/malformed-while-writer-stalled".into(), prop: "C06",
+        callers: vec![vec![Call::Big(1, 200), Call::Plain(101)], vec![Call::Big(2, 200)]],
+        server: vec![ReadHeader, Malformed], helper: vec![], pipe: (48, 0), expect: Expect::AllErr, bound: Some(if thorough { 2 } else { 1 }), write_timeout_s: None });
+    v.push(Spec { name: "c06/malformed-while-single-writer-stalled".into(), prop: "C06",
+        callers: vec![vec![Call::Big(1, 200), Call::Plain(101)]],
+        server: vec![ReadHeader, Malformed], helper: vec![], pipe: (48, 0), expect: Expect::AllErr, bound: None, write_timeout_s: None });
     // timeouts: never answered, clock passes the deadline; then the same client keeps working
     v.push(Spec { name: "c06/timeout-then-late-reply-then-next-call".into(), prop: "C06",
         callers: vec![vec![Call::Timed(1, 5), Call::Plain(2)]],
